@@ -117,7 +117,7 @@ func c02ContainsUpstreamRecord(got, upstream []dns.RR) bool {
 	return false
 }
 
-func c02Monitor(c *plCfg, q *plQuery, o *plObs) (ok bool, msg string, classes []string) {
+func c02Monitor(c *plCfg, q *plQuery, o *plObs, viaCache bool) (ok bool, msg string, classes []string) {
 	if o.Panic != nil {
 		return false, fmt.Sprintf("panic: %v", o.Panic), nil
 	}
@@ -128,7 +128,9 @@ func c02Monitor(c *plCfg, q *plQuery, o *plObs) (ok bool, msg string, classes []
 	protection, filteringOn, _, _, _ := plEffective(c, q)
 	res := o.Result
 	respBlocked := res != nil && res.IsFiltered && o.OrigKept
-	forwarded := len(o.Calls) == 1
+	// viaCache: a repeated question whose first ask was forwarded; the proxy
+	// cache may answer in place of the upstream
+	forwarded := len(o.Calls) == 1 || (viaCache && len(o.Calls) == 0)
 	texts, kinds := c02Texts(c, q.Answer.Answer)
 
 	if respBlocked {
@@ -156,33 +158,54 @@ func c02Monitor(c *plCfg, q *plQuery, o *plObs) (ok bool, msg string, classes []
 		} else {
 			classes = append(classes, "gate-filtering-off")
 		}
-		if respBlocked || !plSameRecords(o.Res.Answer, q.Answer.Answer, false) {
+		if respBlocked || !plSameRecordsTTL(o.Res.Answer, q.Answer.Answer, false, viaCache) {
 			return false, "response filtering is not applicable (protection or client filtering off) but the answer was changed", classes
 		}
 	}
 	if forwarded && res != nil && res.Reason == filtering.NotFilteredAllowList {
 		classes = append(classes, "gate-allowlisted")
-		if o.OrigKept || !plSameRecords(o.Res.Answer, q.Answer.Answer, false) {
+		if o.OrigKept || !plSameRecordsTTL(o.Res.Answer, q.Answer.Answer, false, viaCache) {
 			return false, "queried name is allow-listed but the answer was changed", classes
 		}
 	}
 
-	// plain reference: only when nothing concerns the queried name itself
+	// plain reference: only when nothing concerns the queried name itself.
+	// A text (CNAME target, address, hint) has the reference verdict
+	// "blocked" when a plain block rule names it (or a parent domain), the
+	// block lists hold no exception / $badfilter rule, and no allow-list rule
+	// concerns that same text; other texts of the answer may well be
+	// allow-listed.
 	if gateOpen && forwarded && plHostVerdict(c, q, host) == -1 {
 		must, related := -1, false
-		noExceptions := len(c.Allow) == 0 && !plAnyBadfilterOrWhite(c.BlockRules())
+		noExceptions := !plAnyBadfilterOrWhite(c.BlockRules())
+		allowedBefore := false
 		for i, t := range texts {
+			allowRelated := false
+			for _, r := range c.Allow {
+				if plRelated(r, t) {
+					related = true
+					allowRelated = true
+				}
+			}
 			for _, r := range c.BlockRules() {
 				if plRelated(r, t) {
 					related = true
 				}
-				if must < 0 && noExceptions && plPlainBlock(r, t) {
+				if must < 0 && noExceptions && !allowRelated && plPlainBlock(r, t) {
 					must = i
+					if allowedBefore {
+						classes = append(classes, "allowed-text-before-blocked")
+						if i > 0 && strings.HasPrefix(kinds[i], "hint") && strings.HasPrefix(kinds[i-1], "hint") {
+							classes = append(classes, "allowed-hint-before-blocked-hint")
+						}
+					}
 				}
 			}
-			for _, r := range c.Allow {
-				if plRelated(r, t) {
-					related = true
+			if allowRelated {
+				for _, r := range c.Allow {
+					if plPlainPattern(r, t) {
+						allowedBefore = true
+					}
 				}
 			}
 		}
@@ -201,7 +224,7 @@ func c02Monitor(c *plCfg, q *plQuery, o *plObs) (ok bool, msg string, classes []
 			}
 		case !related:
 			classes = append(classes, "nothing-related")
-			if respBlocked || !plSameRecords(o.Res.Answer, q.Answer.Answer, c.AAAADisabled) {
+			if respBlocked || !plSameRecordsTTL(o.Res.Answer, q.Answer.Answer, c.AAAADisabled, viaCache) {
 				return false, fmt.Sprintf("no rule concerns any record of the answer but it was changed: got %v, upstream %v", o.Res.Answer, q.Answer.Answer), classes
 			}
 		}
@@ -239,12 +262,15 @@ func TestVerifC02(t *testing.T) {
 	defer out.Close()
 	rnd := vfNewRand(out.Seed)
 
-	emit := func(ps *plServer, q *plQuery, extra ...string) {
+	var lastObs plObs
+	viaCache := false
+	emitAs := func(ctor string, ps *plServer, q *plQuery, extra ...string) {
 		o := ps.run(q)
-		ok, msg, classes := c02Monitor(ps.cfg, q, &o)
+		lastObs = o
+		ok, msg, classes := c02Monitor(ps.cfg, q, &o, viaCache && ctor == "CRepeat")
 		res := o.Result
 		c := vfCase{
-			Coq:        plCaseCoq(ps.cfg, q, &o),
+			Coq:        plCaseCoqAs(ctor, ps.cfg, q, &o),
 			Nontrivial: res != nil && res.IsFiltered && o.OrigKept || len(q.Answer.Answer) > 0,
 			Classes:    append(classes, extra...),
 			MonitorOK:  ok,
@@ -257,6 +283,65 @@ func TestVerifC02(t *testing.T) {
 			c.MonitorMsg = msg + fmt.Sprintf(" [config %v; query %s %s from %s; upstream answer %v]", ps.cfg.Desc(), q.Name, dns.TypeToString[q.QType], q.Addr, q.Answer.Answer)
 		}
 		out.Emit(c)
+	}
+	emit := func(ps *plServer, q *plQuery, extra ...string) { emitAs("CPipe", ps, q, extra...) }
+
+	// repeat: the same question again through the proxy cache; the verdict
+	// must be that of the first ask (and of a fresh ask after a rule change).
+	repeat := func(ps *plServer, q *plQuery, extra ...string) {
+		emitAs("CPipe", ps, q, extra...)
+		first := lastObs
+		blocked := func(o *plObs) bool { return o.Result != nil && o.Result.IsFiltered }
+		check := func(when string, want *plObs, fresh bool) {
+			o := lastObs
+			bad := ""
+			switch {
+			case o.Res == nil || want.Res == nil:
+				if (o.Res == nil) != (want.Res == nil) {
+					bad = "one of the two asks has no response"
+				}
+			case !fresh && blocked(&o) != blocked(want):
+				bad = fmt.Sprintf("first ask filtered=%v, %s filtered=%v", blocked(want), when, blocked(&o))
+			case !fresh && o.Res.Rcode != want.Res.Rcode:
+				bad = fmt.Sprintf("first ask rcode %d, %s rcode %d", want.Res.Rcode, when, o.Res.Rcode)
+			case !fresh && len(o.Res.Answer) != len(want.Res.Answer):
+				bad = fmt.Sprintf("first ask delivered %v, %s delivered %v", want.Res.Answer, when, o.Res.Answer)
+			}
+			if bad != "" {
+				out.Emit(vfCase{
+					Coq: "(CRepeat " + strings.TrimPrefix(plCaseCoqAs("CRepeat", ps.cfg, q, &o), "(CRepeat "), Key: "repeat-" + vfHash(ps.cfg.Desc(), q.Name, q.QType, when),
+					Nontrivial: true, Classes: []string{"repeat-differs"}, MonitorOK: false,
+					MonitorMsg: fmt.Sprintf("the same question asked again got another verdict (%s): %s [config %v; query %s %s from %s; upstream answer %v]",
+						when, bad, ps.cfg.Desc(), q.Name, dns.TypeToString[q.QType], q.Addr, q.Answer.Answer),
+					FindingKey: "c02-repeat-" + vfHash(ps.cfg.Desc(), q.Name, q.QType, fmt.Sprint(q.Answer.Answer)),
+					Desc:       map[string]any{"config": ps.cfg.Desc(), "name": q.Name, "qtype": dns.TypeToString[q.QType], "when": when},
+				})
+			}
+		}
+		cls := []string{"repeat"}
+		viaCache = len(first.Calls) == 1
+		defer func() { viaCache = false }()
+		emitAs("CRepeat", ps, q, cls...)
+		if len(first.Calls) == 1 && len(lastObs.Calls) == 0 {
+			out.Class("repeat-from-proxy-cache")
+			if blocked(&first) && first.OrigKept {
+				out.Class("repeat-from-proxy-cache-blocked")
+			}
+		}
+		check("second ask", &first, false)
+		// a rule change: block something the answer reveals, ask again
+		texts, _ := c02Texts(ps.cfg, q.Answer.Answer)
+		if len(texts) > 0 && len(first.Calls) == 1 {
+			saved := ps.cfg.Block
+			ps.cfg.Block = append(append([]*vfRule{}, saved...), &vfRule{ID: 191, Pattern: "||" + vfPick(rnd, texts) + "^"})
+			ps.reloadFilters(t)
+			emitAs("CRepeat", ps, q, "repeat-after-rule-change")
+			if len(lastObs.Calls) == 0 {
+				out.Class("repeat-from-proxy-cache-after-rule-change")
+			}
+			ps.cfg.Block = saved
+			ps.reloadFilters(t)
+		}
 	}
 
 	cli := netip.MustParseAddr("10.0.0.1")
@@ -308,6 +393,101 @@ func TestVerifC02(t *testing.T) {
 		c5 := base()
 		c5.Block = append(c5.Block, &vfRule{ID: 103, IsHost: true, HasIP: true, IP: netip.MustParseAddr("127.0.0.1"), Names: []string{"xa.test"}})
 		emit(plNewServer(t, c5), &plQuery{Name: "x.test.", QType: dns.TypeA, Addr: cli, Answer: plMsg(0, plCNAME("x.test.", 330, "xa.test."), good)}, "prelude-hosts-rule-target")
+	}
+
+	{
+		// an allow-listed hint in front of a blocked hint, same list and across lists
+		c := base()
+		c.Allow = []*vfRule{{ID: 200, Pattern: "||93.184.216.34^", White: true}}
+		ps := plNewServer(t, c)
+		emit(ps, &plQuery{Name: "x.test.", QType: dns.TypeHTTPS, Addr: cli,
+			Answer: plMsg(0, plHTTPS("x.test.", 340, []string{"93.184.216.34", "1.2.3.4"}, nil, true))}, "prelude-allowed-hint-then-blocked-hint")
+		emit(ps, &plQuery{Name: "x.test.", QType: dns.TypeHTTPS, Addr: cli,
+			Answer: plMsg(0, plHTTPS("x.test.", 341, []string{"93.184.216.34"}, []string{"2001:db8::1"}, false))}, "prelude-allowed-hint4-then-blocked-hint6")
+		emit(ps, &plQuery{Name: "x.test.", QType: dns.TypeA, Addr: cli,
+			Answer: plMsg(0, plA("x.test.", 342, "93.184.216.34"), plA("x.test.", 343, "1.2.3.4"))}, "prelude-allowed-address-then-blocked-address")
+		// the proxy cache
+		c2 := base()
+		c2.CacheOn = true
+		ps2 := plNewServer(t, c2)
+		repeat(ps2, &plQuery{Name: "x.test.", QType: dns.TypeA, Addr: cli, Answer: plMsg(0, bad, good)}, "prelude-repeat-blocked-cname")
+		repeat(ps2, &plQuery{Name: "www.example.", QType: dns.TypeA, Addr: cli, Answer: plMsg(0, plA("www.example.", 350, "93.184.216.34"), plA("www.example.", 351, "1.2.3.4"))}, "prelude-repeat-blocked-address")
+		repeat(ps2, &plQuery{Name: "c.example.", QType: dns.TypeA, Addr: cli, Answer: plMsg(0, plA("c.example.", 352, "93.184.216.34"))}, "prelude-repeat-clean")
+		repeat(ps2, &plQuery{Name: "h.example.", QType: dns.TypeHTTPS, Addr: cli,
+			Answer: plMsg(0, plHTTPS("h.example.", 353, []string{"93.184.216.34"}, []string{"2001:db8::1"}, true))}, "prelude-repeat-blocked-hint")
+	}
+
+	// --- hint-focused configurations: allow-listed and blocked addresses side by side
+	nHint := out.Scale(60, 1200)
+	for i := 0; i < nHint; i++ {
+		c := base()
+		c.Mode = vfPick(rnd, plModes)
+		c.AAAADisabled = rnd.Chance(1, 6)
+		all := append(append([]string{}, c02V4...), c02V6[:2]...)
+		vfShuffle(rnd, all)
+		nAllow := 1 + rnd.Intn(2)
+		c.Allow, c.Block = nil, nil
+		for k, a := range all {
+			switch {
+			case k < nAllow:
+				c.Allow = append(c.Allow, &vfRule{ID: 200 + k, Pattern: "||" + a + "^", White: rnd.Bool()})
+			case k < nAllow+2:
+				c.Block = append(c.Block, &vfRule{ID: 100 + k, Pattern: "||" + a + "^"})
+			}
+		}
+		ps := plNewServer(t, c)
+		for k := 0; k < 8; k++ {
+			name := vfPick(rnd, []string{"www.example.", "x.test.", "cdn.example."})
+			var v4, v6 []string
+			for j, m := 0, 1+rnd.Intn(3); j < m; j++ {
+				v4 = append(v4, vfPick(rnd, c02V4))
+			}
+			for j, m := 0, rnd.Intn(3); j < m; j++ {
+				v6 = append(v6, vfPick(rnd, c02V6[:2]))
+			}
+			switch rnd.Intn(3) {
+			case 0:
+				var ans []dns.RR
+				for j, a := range v4 {
+					ans = append(ans, plA(name, uint32(400+j), a))
+				}
+				emit(ps, &plQuery{Name: name, QType: dns.TypeA, Addr: cli, Answer: plMsg(0, ans...)})
+			default:
+				emit(ps, &plQuery{Name: name, QType: dns.TypeHTTPS, Addr: cli,
+					Answer: plMsg(0, plHTTPS(name, 410, v4, v6, rnd.Bool()))})
+			}
+		}
+	}
+
+	// --- repeat mode: proxy cache on, every question asked twice (and once more after a rule change)
+	nRep := out.Scale(60, 1200)
+	for i := 0; i < nRep; i++ {
+		c := plGenCfg(rnd, c02Targets)
+		c.CacheOn = true
+		if rnd.Chance(3, 4) {
+			c.ProtEnabled, c.Deadline, c.Filtering = true, 0, true
+		}
+		if rnd.Chance(1, 2) {
+			c.Allow = nil
+			for _, r := range c.BlockRules() {
+				r.White = false
+				r.Badfilter = false
+			}
+			c.Block = append(c.Block, &vfRule{ID: 190, Pattern: "||" + vfPick(rnd, c02Targets) + "^"})
+		}
+		ps := plNewServer(t, c)
+		seen := map[string]bool{}
+		for k := 0; k < 5; k++ {
+			name := vfPick(rnd, append([]string{"www.example", "cdn.example"}, vfNames...)) + "."
+			qt := vfPick(rnd, []uint16{dns.TypeA, dns.TypeAAAA, dns.TypeHTTPS})
+			key := fmt.Sprint(strings.ToLower(name), qt)
+			if seen[key] {
+				continue
+			}
+			seen[key] = true
+			// one client per configuration: the cache is shared between clients
+			repeat(ps, &plQuery{Name: name, QType: qt, Addr: cli, Answer: c02Answer(rnd, name, qt)})
+		}
 	}
 
 	// --- random
